@@ -348,6 +348,20 @@ def umap_find(ex, st, fr, ins, name, argv):
     return NULL
 
 
+def map_ctor_default(ex, st, fr, ins, name, argv):
+    """std::map() / std::unordered_map(): an empty table"""
+    this = argv[0]
+    tb = dict(_tables(st))
+    tb[(this.region, this.off)] = {'kind': 'map', 'pair': None, 'key_ty': ('int', 8), 'entries': [], 'name': st.regions[this.region].name}
+    st.extra['tables'] = tb
+    st.events.append(('table-init', st.regions[this.region].name, 0))
+    return None
+
+
+def is_map_default_ctor(n):
+    return (n.startswith('_ZNSt3mapI') or n.startswith('_ZNSt13unordered_mapI')) and (n.endswith('EC2Ev') or n.endswith('EC1Ev'))
+
+
 def is_umap_ctor(n):
     return n.startswith('_ZNSt13unordered_mapI') and 'ESt16initializer_listI' in n and ('EC2E' in n or 'EC1E' in n)
 
@@ -361,6 +375,6 @@ _containers0 = containers
 
 def containers():
     d = _containers0()
-    d['__patterns__'] = d['__patterns__'] + [(is_umap_ctor, umap_ctor_il), (is_umap_find, umap_find)]
+    d['__patterns__'] = d['__patterns__'] + [(is_umap_ctor, umap_ctor_il), (is_umap_find, umap_find), (is_map_default_ctor, map_ctor_default)]
     d['phqv_any_string'] = any_string
     return d
